@@ -1,2 +1,2 @@
-(* translator failed: pattern for RangeFields loops not found in fields.hh (and the numeric literals of the anchored code changed: constants cannot be kept) *)
+(* translator failed: pattern for RangeFields loops not found in fields.hh *)
 Definition translator_failed : True := 0.
